@@ -213,6 +213,8 @@ type c13Base struct {
 	Doc   *yaml.Node
 	Nodes []c13MapNode
 	Diags []Diag
+
+	layoutDiags map[string][]Diag
 }
 
 func c13NewBase(id, src string) (*c13Base, error) {
@@ -337,15 +339,19 @@ var c13ValNames = []string{"scalar", "null", "mapping", "sequence", "alias"}
 
 // ways of writing a key
 const (
-	c13FormPlain     = ""           // plain (double-quoted if the name cannot be written plain)
-	c13FormAnchor    = "anchor"     // &c13n key: v
-	c13FormTag       = "tag"        // !!str key: v
-	c13FormAnchorTag = "anchor-tag" // &c13n !!str key: v
-	c13FormSingle    = "single-quoted"
-	c13FormDouble    = "double-quoted"
-	c13FormExplicit  = "explicit" // ? key NEWLINE : v
-	c13FormAlias     = "alias"    // *c13a : v   (the anchor c13a is put on a scalar of the base beforehand)
-	c13FormMerge     = "merge"    // <<: *c13a
+	c13FormPlain          = ""                 // plain (double-quoted if the name cannot be written plain)
+	c13FormAnchor         = "anchor"           // &c13n key: v
+	c13FormTag            = "tag"              // !!str key: v
+	c13FormAnchorTag      = "anchor-tag"       // &c13n !!str key: v
+	c13FormTagAnchor      = "tag-anchor"       // !!str &c13n key: v
+	c13FormLocalTagAnchor = "local-tag-anchor" // !c13t &c13n key: v
+	c13FormVerbatimTag    = "verbatim-tag"     // !<tag:yaml.org,2002:str> key: v
+	c13FormNonSpecificTag = "non-specific-tag" // ! key: v
+	c13FormSingle         = "single-quoted"
+	c13FormDouble         = "double-quoted"
+	c13FormExplicit       = "explicit" // ? key NEWLINE : v
+	c13FormAlias          = "alias"    // *c13a : v   (the anchor c13a is put on a scalar of the base beforehand)
+	c13FormMerge          = "merge"    // <<: *c13a
 )
 
 const c13AnchorName = "c13a"
@@ -374,6 +380,15 @@ func c13InsertedEntry(key string, valKind int, form string) c13Inserted {
 		prefix = "!!str "
 	case c13FormAnchorTag:
 		prefix = "&c13n !!str "
+	case c13FormTagAnchor:
+		prefix = "!!str &c13n "
+	case c13FormLocalTagAnchor:
+		prefix = "!c13t &c13n "
+		e.Key.Tag = "!c13t"
+	case c13FormVerbatimTag:
+		prefix = "!<tag:yaml.org,2002:str> "
+	case c13FormNonSpecificTag:
+		prefix = "! "
 	case c13FormSingle:
 		kt = "'" + strings.ReplaceAll(key, "'", "''") + "'"
 	case c13FormDouble:
@@ -590,6 +605,89 @@ func (b *c13Base) c13Insert(mn *c13MapNode, p int, key string, valKind int, form
 	return mu
 }
 
+// file layouts of a mutant
+const (
+	c13LayoutNoEOL     = "no-final-line-break"
+	c13LayoutCRLFNoEOL = "crlf-no-final-line-break"
+)
+
+var c13Layouts = []string{c13LayoutNoEOL, c13LayoutCRLFNoEOL}
+
+func c13ApplyLayout(src, layout string) string {
+	src = strings.TrimRight(src, "\n")
+	if layout == c13LayoutCRLFNoEOL {
+		src = strings.ReplaceAll(src, "\n", "\r\n")
+	}
+	return src
+}
+
+// c13LayoutCheck: the re-laid-out mutant is the same document, the inserted key sits where it was and
+// on the very last line of the file.
+func c13LayoutCheck(lf string, mu *c13Mutant, mn *c13MapNode) string {
+	a, err := c13ParseDoc(lf)
+	if err != nil {
+		return "LF mutant does not parse"
+	}
+	g, err := c13ParseDoc(mu.Src)
+	if err != nil {
+		return "re-laid-out mutant does not parse: " + err.Error()
+	}
+	if c13CanonString(a) != c13CanonString(g) {
+		return "re-laid-out mutant is another document"
+	}
+	if mu.KeyPos.Line != strings.Count(mu.Src, "\n")+1 {
+		return "the inserted key is not on the last line"
+	}
+	found := false
+	var walk func(n *yaml.Node)
+	walk = func(n *yaml.Node) {
+		if n.Line == mu.NodePos.Line && n.Column == mu.NodePos.Col && (n.Kind == yaml.ScalarNode || n.Kind == yaml.AliasNode) {
+			found = true
+		}
+		for _, ch := range n.Content {
+			walk(ch)
+		}
+	}
+	if gm := c13At(g, mn.Idx); gm != nil {
+		walk(gm)
+	}
+	if !found {
+		return "inserted key moved"
+	}
+	return ""
+}
+
+// c13LayoutDiags lints the base itself in the given layout (cached per base; a base is used by one case only).
+func (b *c13Base) c13LayoutDiags(layout string) ([]Diag, error) {
+	if ds, ok := b.layoutDiags[layout]; ok {
+		return ds, nil
+	}
+	ds, err := lintSrc(c13ApplyLayout(b.Src, layout))
+	if err != nil {
+		return nil, err
+	}
+	if b.layoutDiags == nil {
+		b.layoutDiags = map[string][]Diag{}
+	}
+	b.layoutDiags[layout] = ds
+	return ds, nil
+}
+
+// c13EndsAtEOF: is the last line of the mapping the last non-blank line of the file?
+func (b *c13Base) c13EndsAtEOF(m *yaml.Node) bool {
+	col, ok := b.c13Editable(m)
+	if !ok {
+		return false
+	}
+	end := b.c13EndLine(col, m.Content[len(m.Content)-2].Line)
+	for j := end; j < len(b.Lines); j++ {
+		if !c13Blank(b.Lines[j]) {
+			return false
+		}
+	}
+	return true
+}
+
 // c13Delete removes the i-th key (with its value) of the mapping at mn.
 func (b *c13Base) c13Delete(mn *c13MapNode, i int) *c13Mutant {
 	m := c13At(b.Doc, mn.Idx)
@@ -747,6 +845,7 @@ type c13Op struct {
 	Orig    int // index of the original key for duplicates
 	Mand    *c13Mand
 	Form    string // how the inserted key is written (c13Form...)
+	Layout  string // file layout of the mutant ("" = as the base: LF, final line break)
 }
 
 func c13CaseVariants(k string) []string {
@@ -961,14 +1060,32 @@ func c13Apply(c *Case, b *c13Base, mn *c13MapNode, op c13Op, strictSelfCheck boo
 		}
 		return false
 	}
+	baseDiags := b.Diags
+	if op.Layout != "" {
+		// the same mutant in another file layout (no final line break, CRLF); the key has to be on the last line
+		lf := mu.Src
+		mu.Src = c13ApplyLayout(lf, op.Layout)
+		if prob := c13LayoutCheck(lf, mu, mn); prob != "" {
+			c.Count("mutations_not_expressible", 1)
+			if strictSelfCheck {
+				c.SetAdd("selfcheck_failures", fmt.Sprintf("%s %s %s@%d %q layout %s: %s", b.ID, sec.Name, op.Kind, op.Pos, op.Key, op.Layout, prob))
+			}
+			return false
+		}
+		var lerr error
+		if baseDiags, lerr = b.c13LayoutDiags(op.Layout); lerr != nil {
+			c.Count("mutations_not_expressible", 1)
+			return false
+		}
+	}
 	got, err := lintSrc(mu.Src)
 	c.Eval(1)
 	c.Count("mutants_"+op.Kind, 1)
 	detail := func(extra map[string]interface{}) map[string]interface{} {
 		d := map[string]interface{}{
 			"base": b.ID, "section": sec.Name, "path": strings.Join(mn.Path, " / "), "mutation": op.Kind, "key": op.Key,
-			"position_index": op.Pos, "value_kind": c13ValNames[op.ValKind], "key_form": op.Form, "base_src": b.Src, "src": mu.Src,
-			"base_diags": diagStrings(b.Diags), "diags": diagStrings(got),
+			"position_index": op.Pos, "value_kind": c13ValNames[op.ValKind], "key_form": op.Form, "layout": op.Layout, "base_src": b.Src, "src": mu.Src,
+			"base_diags": diagStrings(baseDiags), "diags": diagStrings(got),
 		}
 		for k, v := range extra {
 			d[k] = v
@@ -978,7 +1095,7 @@ func c13Apply(c *Case, b *c13Base, mn *c13MapNode, op c13Op, strictSelfCheck boo
 	c.Logf("--- %s: %s key=%q form=%q as key #%d value=%s in section %s at %s (changed line %d, %+d lines)", b.ID, op.Kind, op.Key, op.Form, op.Pos, c13ValNames[op.ValKind], sec.Name, strings.Join(mn.Path, "/"), mu.At, mu.Shift)
 	disagree := func(sig, what string, det map[string]interface{}) {
 		c.Logf("DISAGREEMENT %s\n  %s\n  mutated workflow:\n%s\n  base diagnostics:\n    %s\n  diagnostics of the mutant:\n    %s", sig, what, mu.Src,
-			strings.Join(diagStrings(b.Diags), "\n    "), strings.Join(diagStrings(got), "\n    "))
+			strings.Join(diagStrings(baseDiags), "\n    "), strings.Join(diagStrings(got), "\n    "))
 		c.Violation(sig, what, det)
 	}
 	if err != nil {
@@ -992,10 +1109,10 @@ func c13Apply(c *Case, b *c13Base, mn *c13MapNode, op c13Op, strictSelfCheck boo
 		}
 	}
 	col := m.Content[0].Column
-	lost, fresh := c13Diff(b.Diags, got, mu, col)
+	lost, fresh := c13Diff(baseDiags, got, mu, col)
 
 	if op.Kind == "delete" {
-		for _, d := range b.Diags {
+		for _, d := range baseDiags {
 			if c13NamesWord(d.Msg, op.Mand.Word) && c13MissingRe.MatchString(d.Msg) {
 				// the base already carries such a report (e.g. `steps:` without a value): a new one cannot be told apart
 				c.Count("deletions_not_judged_base_already_reports_key", 1)
@@ -1030,7 +1147,7 @@ func c13Apply(c *Case, b *c13Base, mn *c13MapNode, op c13Op, strictSelfCheck boo
 	}
 	pc := c13PosClass(op.Pos, n)
 	c.SetAdd("covered", sec.Name+":"+op.Kind+":"+pc)
-	c.Nontrivial(b.ID + "|" + strings.Join(mn.Path, "/") + "|" + op.Kind + "|" + op.Key + "|" + strconv.Itoa(op.Pos) + "|" + strconv.Itoa(op.ValKind) + "|" + op.Form)
+	c.Nontrivial(b.ID + "|" + strings.Join(mn.Path, "/") + "|" + op.Kind + "|" + op.Key + "|" + strconv.Itoa(op.Pos) + "|" + strconv.Itoa(op.ValKind) + "|" + op.Form + "|" + op.Layout)
 
 	// the report has to sit on the key: at its first character for a plain key, inside the key token
 	// (behind anchor / tag / `? `) for the other ways of writing a key
@@ -1068,6 +1185,13 @@ func c13Apply(c *Case, b *c13Base, mn *c13MapNode, op c13Op, strictSelfCheck boo
 	}
 	if flow {
 		c.SetAdd("forms_covered", "flow:"+c13Group(sec.Name)+":"+kindClass)
+	}
+	if op.Layout != "" {
+		fl := formLabel
+		if fl == c13FormPlain {
+			fl = "plain"
+		}
+		c.SetAdd("layouts_covered", fl+":"+op.Layout+":"+kindClass)
 	}
 	reported, namedElsewhere := false, false
 	quoted := strconv.Quote(op.Key)
@@ -1117,6 +1241,10 @@ func c13Apply(c *Case, b *c13Base, mn *c13MapNode, op c13Op, strictSelfCheck boo
 		if flow {
 			sig += ":flow-mapping"
 		}
+		if op.Layout != "" {
+			sig += ":layout=" + op.Layout
+			what += " (file layout: " + op.Layout + ")"
+		}
 		disagree(sig, what, detail(map[string]interface{}{"expected_position": want, "new_diags": diagStrings(fresh)}))
 	}
 	// siblings: every diagnostic of the base must survive
@@ -1125,7 +1253,7 @@ func c13Apply(c *Case, b *c13Base, mn *c13MapNode, op c13Op, strictSelfCheck boo
 	if !flow {
 		endLine = b.c13EndLine(col, m.Content[2*(n-1)].Line)
 	}
-	for _, d := range b.Diags {
+	for _, d := range baseDiags {
 		if d.Line >= m.Content[0].Line && d.Line <= endLine {
 			inMap++
 		}
@@ -1142,6 +1270,9 @@ func c13Apply(c *Case, b *c13Base, mn *c13MapNode, op c13Op, strictSelfCheck boo
 		if flow {
 			lostSig += ":flow-mapping"
 		}
+		if op.Layout != "" {
+			lostSig += ":layout=" + op.Layout
+		}
 		disagree(lostSig,
 			fmt.Sprintf("%s %q in %s (%s): %d diagnostic(s) of the base workflow disappeared, first: %s", kindClass, op.Key, sec.Name, strings.Join(mn.Path, "/"), len(lost), lost[0].String()),
 			detail(map[string]interface{}{"lost": diagStrings(lost), "new_diags": diagStrings(fresh)}))
@@ -1152,7 +1283,7 @@ func c13Apply(c *Case, b *c13Base, mn *c13MapNode, op c13Op, strictSelfCheck boo
 	if sample != nil && *sample && op.Pos >= 1 && op.Kind != "dup" {
 		*sample = false
 		c.Sample(map[string]interface{}{"base": b.ID, "section": sec.Name, "mutation": op.Kind, "key": op.Key, "line": mu.KeyPos.Line, "col": mu.KeyPos.Col,
-			"new_diags": diagStrings(fresh), "base_diagnostics_kept": len(b.Diags) - len(lost), "base_diagnostics_lost": len(lost)})
+			"new_diags": diagStrings(fresh), "base_diagnostics_kept": len(baseDiags) - len(lost), "base_diagnostics_lost": len(lost)})
 	}
 	return true
 }
@@ -1255,7 +1386,7 @@ func runC13(r *Run) {
 	r.Rule = "bases: four hand-written templates (together every accepted key of every section of the table) rendered clean, all-dirty (every scalar sibling carries a known diagnostic) and with seeded random dirty subsets (thorough: more subsets and each alternation dirty alone), plus every workflow under testdata/{ok,examples,err} of the repository. " +
 		"For every block-style mapping node matching a table row: foreign key (synthetic name, a key valid in another section, a name with a space; scalar/null/mapping/sequence value) at every position; every key repeated behind the original (same spelling; other letter cases: a repetition in case-insensitive name mappings, a foreign key in fixed sections); every mandatory key deleted. " +
 		"Family names: a template with every user-named mapping (dispatch/call inputs, call secrets and outputs, env at workflow/job/step/container/service level, jobs, job outputs, matrix rows, row values, include/exclude items, services, step and job with, job secrets) rendered with generated names of class ascii / mixed / nonascii (Latin-1, Greek, Cyrillic letters with one-to-one case pairs, pair table written in the monitor); each name repeated as upper, lower, capitalised, only non-ASCII letters flipped, only ASCII letters flipped, one letter flipped, all flipped, random mixture. " +
-		"Families forms-*: in every mapping of every template a foreign key and a repetition written with an anchor, an explicit tag, both, single / double quotes, as explicit `? key`, as an alias of a scalar anchored elsewhere (and of the anchored original key), as merge key `<<: *a`, and with an alias as value; template K adds one-line flow mappings in every section group, keys that already carry properties, and alias-valued siblings. " +
+		"Families forms-*: in every mapping of every template a foreign key and a repetition written with an anchor, an explicit tag, both, single / double quotes, as explicit `? key`, as an alias of a scalar anchored elsewhere (and of the anchored original key), as merge key `<<: *a`, and with an alias as value; tag before anchor, local tag, verbatim tag and the non-specific tag `!`; every form also as the last key of the mappings that end the file, with the file rewritten without final line break (LF and CRLF); template K adds one-line flow mappings in every section group, keys that already carry properties, and alias-valued siblings. " +
 		"Each mutant is re-parsed with yaml.v3 and compared with the intended tree before it is judged. Non-trivial = distinct (base, mapping path, mutation, key, position, value kind)."
 	r.Assume("yaml.v3 line/column of a key is the position at which actionlint has to report it (C07 checks positions independently)")
 	r.Assume("a diagnostic is identified by (line, column, kind, message with embedded line:N,col:M references blanked); base diagnostics below the mutated line are expected shifted by the number of inserted lines")
